@@ -919,6 +919,7 @@ class PlainQuantity(Generic[MagnitudeT], PrettyIPython, SharedRegistryObject):
                 return NotImplemented
             self._magnitude = magnitude_op(self._magnitude, other_magnitude)
             self._units = units_op(self._units, self.UnitsContainer())
+            self._dimensionality = None
             return self
 
         if isinstance(other, self._REGISTRY.Unit):
@@ -938,6 +939,7 @@ class PlainQuantity(Generic[MagnitudeT], PrettyIPython, SharedRegistryObject):
 
         self._magnitude = magnitude_op(self._magnitude, other._magnitude)
         self._units = units_op(self._units, other._units)
+        self._dimensionality = None
 
         return self
 
@@ -1079,6 +1081,7 @@ class PlainQuantity(Generic[MagnitudeT], PrettyIPython, SharedRegistryObject):
         else:
             raise DimensionalityError(self._units, "dimensionless")
         self._units = self.UnitsContainer({})
+        self._dimensionality = None
         return self
 
     @check_implemented
@@ -1208,6 +1211,7 @@ class PlainQuantity(Generic[MagnitudeT], PrettyIPython, SharedRegistryObject):
                 else:
                     self._units **= other
 
+            self._dimensionality = None
             self._magnitude **= _to_magnitude(
                 other, self.force_ndarray, self.force_ndarray_like
             )
